@@ -535,6 +535,8 @@ func err1Obligations(w *World) []Ob {
 			switch {
 			case c.consumed:
 				ob.Status, ob.Detail = OK, strings.Join(dedupSorted(c.how), "; ")
+			case len(c.tests) > 0 && pureSourceReplaced(p, s, fn):
+				ob.Status, ob.Detail, ob.Nontrivial = OK, "the error of a pure conversion ("+s.what+") is tested and every return on its non-nil side hands back another non-nil error: the failure is still reported (no I/O error is replaced)", false
 			case len(c.tests) > 0:
 				ob.Status = Violation
 				ob.Detail = "the error of " + s.what + " is only tested (" + strings.Join(dedupSorted(c.tests), ", ") + ") and never returned, sent, yielded or wrapped: checked but swallowed/replaced"
@@ -1167,4 +1169,65 @@ func sameObject(a, b ssa.Value) bool {
 		return true
 	}
 	return stripConv(a) == stripConv(b)
+}
+
+// pureSourceReplaced: the source is an effect-free library function outside the module (strconv, time parsing, …) and
+// wherever its error is known non-nil the enclosing function returns a provably non-nil error.
+func pureSourceReplaced(p *Prog, s errSource, fn *ssa.Function) bool {
+	ci, ok := s.instr.(*ssa.Call)
+	if !ok || s.val == nil {
+		return false
+	}
+	callee := ci.Common().StaticCallee()
+	if callee == nil || p.InModule(callee) || classifyExternal(callee) != EffPure {
+		return false
+	}
+	switch p.PkgPath(callee) {
+	case "strconv", "time", "net/url", "unicode/utf8", "encoding/hex", "encoding/base64", "math/big":
+	default:
+		return false
+	}
+	res := fn.Signature.Results()
+	if res.Len() == 0 || !isErrorType(res.At(res.Len()-1).Type()) {
+		return false
+	}
+	nc := newNilCtxCached(p)
+	// the blocks on the error's non-nil side
+	okAll, n := true, 0
+	for _, r := range *s.val.Referrers() {
+		b, isB := r.(*ssa.BinOp)
+		if !isB {
+			continue
+		}
+		_, nonNil, isNil := nilTest(b, true)
+		if !isNil {
+			continue
+		}
+		for _, r2 := range *b.Referrers() {
+			var side *ssa.BasicBlock
+			switch x := r2.(type) {
+			case *ssa.If:
+				if nonNil {
+					side = x.Block().Succs[0]
+				} else {
+					side = x.Block().Succs[1]
+				}
+			default:
+				continue
+			}
+			for blk := range blockReach(side, map[*ssa.BasicBlock]bool{}) {
+				if !side.Dominates(blk) {
+					continue
+				}
+				if ret, isRet := blk.Instrs[len(blk.Instrs)-1].(*ssa.Return); isRet {
+					n++
+					vals := rr(ret)
+					if !nc.nonNil(vals[len(vals)-1], ret, 0) {
+						okAll = false
+					}
+				}
+			}
+		}
+	}
+	return okAll && n > 0
 }
